@@ -917,6 +917,97 @@ def rule_r9(repo, run):
     run.floor(R, "scalar renderings of a pointer result", n, 1)
 
 
+def _role_lists(mod, fn, var):
+    """{'result': List node, 'arg': List node} assigned to `var` under / not under an is_result test"""
+    out = {}
+    for a in ast.walk(fn):
+        if isinstance(a, ast.Assign) and pyflow.is_name(a.targets[0], var):
+            v = a.value
+            if isinstance(v, ast.BinOp) and isinstance(v.left, ast.List):
+                v = v.left
+            if not (isinstance(v, ast.List) and len(v.elts) >= 4 and pyflow.const_str(v.elts[0]) == "c"):
+                continue
+            conds = [(mod.seg(t), pol) for t, pol in pyflow.dominating_tests(a, stop=fn)]
+            isres = [pol for t, pol in conds if "is_result" in t]
+            if isres:
+                out.setdefault("result" if isres[-1] else "arg", v)
+    return out
+
+
+def _eval_path(mod, lst, env):
+    path = []
+    for e in lst.elts:
+        c = pyflow.const_str(e)
+        if c is not None:
+            path.append(c)
+            continue
+        t = str(mod.seg(e))
+        for key in ("sgroup", "spointer", "generated_suffix", "stmts_suffix", "intent", "deref", "cdesc"):
+            if key in t:
+                path.append(env[key])
+                break
+        else:
+            raise AnalysisError("C04.R10: cannot interpret lookup path element %s" % t)
+    return path
+
+
+def rule_r10(repo, run, table):
+    R = run.rule("C04.R10", "the C emitter and the Fortran interface/wrapper look an argument or result up under the same "
+                            "statement path (over the lookup closure), so both sides describe the same parameter list")
+    from checks import c01
+    wc, wf = repo.module("wrapc"), repo.module("wrapf")
+    sites = {
+        "wrapc.wrap_function": _role_lists(wc, wc.func("Wrapc.wrap_function"), "stmts"),
+        "wrapf.wrap_function_interface": _role_lists(wf, wf.func("Wrapf.wrap_function_interface"), "c_stmts"),
+        "wrapf.wrap_function_impl": _role_lists(wf, wf.func("Wrapf.wrap_function_impl"), "c_stmts"),
+    }
+    mods = {"wrapc.wrap_function": wc, "wrapf.wrap_function_interface": wf, "wrapf.wrap_function_impl": wf}
+    for k, v in sites.items():
+        if "result" not in v or "arg" not in v:
+            raise AnalysisError("C04.R10: lookup path lists of %s not found (%s)" % (k, sorted(v)))
+    res = table.resolve_all("c++")
+    groups = sorted(set(n_.split("_")[1] for n_ in res if n_.count("_") >= 2))
+    n = 0
+    for role in ("result", "arg"):
+        bad = {}
+        for sg in groups:
+            for sp in c01.SPOINTERS:
+                for intent in (("result",) if role == "result" else ("in", "out", "inout")):
+                    for gsuf in c01.SUFFIXES.get(sg, ("", "buf")):
+                        for deref in c01.DEREFS:
+                            for cdesc in ((None,) if role == "result" else (None, "cdesc")):
+                                # the result-as-argument keeps the function's suffix; its own stmts_suffix is empty
+                                env = dict(sgroup=sg, spointer=sp, intent=intent, generated_suffix=gsuf,
+                                           stmts_suffix=("" if role == "result" else gsuf), deref=deref, cdesc=cdesc)
+                                got = {}
+                                for k in sites:
+                                    e = table.lookup(_eval_path(mods[k], sites[k][role], env), "c++")
+                                    got[k] = e.name if e else None
+                                n += 1
+                                if len(set(got.values())) > 1:
+                                    bad.setdefault(tuple(sorted(got.items())), env)
+        for combo, env in sorted(bad.items(), key=str)[:5]:
+            run.fail(R, "fc_statements:%s-lookup[%s]" % (role, ",".join("%s=%s" % kv for kv in combo)),
+                     "for %s the emitters resolve different entries %s: the C prototype and the bind(C) interface are "
+                     "built from different buf_args (missing context/len arguments on one side)"
+                     % ({k: v for k, v in env.items() if v}, dict(combo)), "shroud/wrapf.py")
+        if not bad:
+            run.ok(R, "fc_statements:%s-lookup" % role, sample=dict(role=role, paths={k: str(mods[k].seg(sites[k][role])) for k in sites}))
+    run.rules[R]["obligations"] += n
+    run.rules[R]["discharged"] += n
+    run.floor(R, "lookup tuples compared", n, 500)
+
+
+def rule_r11(repo, run):
+    R = run.rule("C04.R11", "shared with sibling checks: Fortran enumerator parameters are computed as twins of the C "
+                            "enumerators (C11.R1, C11.R2); the C prototype lists its parameters in the order the interface "
+                            "declares them (C02.R2)")
+    from checks import c11, c02
+    from sa.report import import_rules
+    import_rules(run, R, c11, repo, {"C11.R1", "C11.R2"})
+    import_rules(run, R, c02, repo, {"C02.R2"})
+
+
 def run(repo, run, tier):
     tables.check_model_assumptions(repo)
     table = tables.StatementTable(repo, "statements", "fc_statements")
@@ -931,6 +1022,8 @@ def run(repo, run, tier):
     rule_r7(repo, run, table)
     rule_r8(repo, run, table, types)
     rule_r9(repo, run)
+    rule_r10(repo, run, table)
+    rule_r11(repo, run)
     run.assumptions.extend([
         "LP64 / ISO_C_BINDING interoperability table in sa/interop.py",
         "table semantics model (base/mixin/language selection) mirrors statements.update_stmt_tree; "
